@@ -38,7 +38,7 @@ PROPS = {
         ],
     },
     "C03": {
-        "units": ["table", "blockdb", "dbfacade"],
+        "units": ["table", "blockdb", "dbfacade", "history"],
         "kani": [],
         "level_text": "Proof that commit points are unobservable on the storage kernel: table commit preserves cur(k) for every key (also on Err), block-table commit preserves view_at, commit_changes preserves every read of all 15 stores and empties all caches, clear_caches changes nothing persisted and resets the cached height; reads are functions of the merged view only.",
         "level_note": COMMON_TRUST + "`Stop and reopen` is the DB shim's assumption that a reopened store has the same byte map. Engine-level guards (commit only with no block under construction) are covered under C05.",
@@ -98,7 +98,7 @@ PROPS["C15"] = {
 }
 
 PROPS["C18"] = {
-    "units": ["dbfacade"],
+    "units": ["dbfacade", "table"],
     "kani": [],
     "level_text": "Proof on the real Brc20ProgDatabase::get_logs (three nested loops with invariants, termination): ranges wider than 6 blocks are refused; otherwise the result equals, as a sequence, the matching logs of the receipts of the range scan [key(from,0), key(to+1,0)) in entry order and log order, with the filter written from the statement (address equal if given; per position: null wildcard, single value equal, list = alternatives, null inside a list matches nothing).",
     "level_note": COMMON_TRUST + "The range scan is the table's get_range contract (complete, duplicate-free, encoded-key order), proved against the real body in unit table; key order = (block, index) order is the U128 codec order lemma (C14). Rule N28 turns the two `for` loops that use `continue` into index loops (Verus has no `continue` in for-loops). Requires from <= to (a reversed range relies on wrapping arithmetic of the release profile and is refused as too large). Not covered: parse_block_number, the async handler, log contents produced by revm.",
@@ -109,35 +109,35 @@ PROPS["C18"] = {
 }
 
 PROPS["C02"] = {
-    "units": ["scalars", "dbfacade", "table"],
+    "units": ["scalars", "dbfacade", "table", "history", "blockdb"],
     "kani": [],
     "level_text": "Functional postconditions `result == pure function of the arguments` on the consensus-path kernels: gas allowance and its inverse, fork schedule (Prague from 923369 / 275000, RLP hash from 929000) with the constants pinned, generate_block_hash, the (block,index) key, eth_getLogs output as a sequence (order included) over the range scan contract, scan results in encoded-key order; DB_VERSION/PROTOCOL_VERSION pinned under C20. A result that depended on HashMap iteration order could not satisfy these postconditions (that is how D4/D5 were found).",
     "level_note": COMMON_TRUST + "keccak/merkle/bloom are uninterpreted (determinism inside those libraries assumed); revm, serde_json field order, trace string sorting (closure), generate_block/generate_raw_block bodies (merkle, bloom, revm types) are not under contract; ",
     "assumptions": ["revm / alloy / serde determinism", "generate_block and generate_raw_block bodies not under contract"],
 }
 PROPS["C04"] = {
-    "units": ["table", "blockdb", "dbfacade"],
+    "units": ["table", "blockdb", "dbfacade", "history"],
     "kani": [],
     "level_text": "Write-order kernel only: inside BlockCachedDatabase::commit the history row of a key is (asserted) on disk before its latest-value row is written, with a loop invariant that rows of untouched keys are unchanged and commit preserves every read also on Err; commit_changes makes the three block-keyed stores durable (asserted) before the first versioned table is committed; BlockDatabase::reorg bounds its deletions by its own last_key and never invents a row on Err.",
     "level_note": COMMON_TRUST + "Narrow: a crash point is an intermediate state; only the two intermediate assertions and the per-function Err postconditions are proved. NOT covered: the composition over 15 tables into `reopen + reorg(D) yields the state as of D`, ConfigDatabase write-through, RocksDB's own atomicity and WAL (assumed: each put/delete atomic and durable in program order), crashes inside reorg beyond commit.",
     "assumptions": ["each put/delete is atomic and durable in program order (DB shim)", "multi-table recovery is argued in DESIGN.md, not checked"],
 }
 PROPS["C05"] = {
-    "units": ["engine", "dbfacade", "payload", "txstore", "handlers"],
+    "units": ["engine", "dbfacade", "payload", "txstore", "handlers", "table", "blockdb"],
     "kani": [],
     "level_text": "Proof of the rejection kernel: validate_next_tx (closure inlined) accepts iff tx_idx equals the number of transactions in the block, timestamp/hash equal those of the block under construction, and the block does not exist; commit_to_db / reorg / mine_blocks / finalise_block / add_tx_to_block reach their store mutation sites only behind those guards (site preconditions, rule N10); set_block_hash / set_tx_receipt: an existing hash or height gives Err and *final == *old; select_bytes accepts exactly one of the two encodings, and the handlers brc20_deploy / call / transact refuse a request before the engine is reached when it fails (both fields, none) or when the pkscript is not hex; the count of transactions waiting to be finalised advances by exactly one per stored transaction (tail of add_tx_to_block's closure, unit txstore), which is what validate_next_tx and finalise_block compare the supplied index / count with.",
     "level_note": COMMON_TRUST + "SharedData is modelled sequentially; closure bodies handed to write_fn (EVM run, receipt bookkeeping) are replaced by guarded sites, so `leaves the instance exactly as it was` is NOT proved for errors raised after partial execution inside those closures (revm). Handlers in rpc_server.rs are async and outside the kernel.",
     "assumptions": ["closure bodies passed to SharedData::write_fn are outside the proof (N10)", "sequential model of SharedData"],
 }
 PROPS["C06"] = {
-    "units": ["dbfacade", "scalars", "engine", "txstore", "rawblock"],
+    "units": ["dbfacade", "scalars", "engine", "txstore", "rawblock", "table", "blockdb"],
     "kani": [],
     "level_text": "Proof on Brc20ProgDatabase::set_tx_receipt: after Ok the transaction row, the receipt row, the (block,index)->hash row and the inscription->hash row all carry the same hash, block hash, block number and index; set_block_hash: number->hash and hash->number invert each other; LogED::new_vec: log indexes run contiguously from the start index and every log carries its transaction's hash, index, block hash and number; get_block_tx_count = number of (block,index) rows of the block; generate_block on its real body: the block lists exactly the transaction hashes recorded under (block, 0), (block, 1), .. in index order, its count field is their number, it carries the number and hash it was generated for, its parent is the recorded hash of the previous block (zero for block 0) and a missing parent is an error; add_tx_to_block stores transaction, receipt and trace under get_tx_hash(tx, account nonce) (site precondition) and get_tx_hash is the keccak of sender, nonce, target, data (functional postcondition); the tail of add_tx_to_block's closure (lifted, unit txstore): the receipt is stored with the block's running gas total INCLUDING this transaction as cumulative gas and with the block's running log count BEFORE it as first log index, under the hash / index / number / nonce / gas limit of this transaction; afterwards the running totals have advanced by exactly this transaction (one more waiting transaction, gas, logs), and the receipt handed back is the one the store serves; finalise_block's closure (lifted, unit txstore): the block record stored under the number is the one generated for exactly the supplied hash / number / timestamp and the gas total of the block being built, the raw block is the raw form of that record, and the hash - which is what makes the block visible - is recorded last, after the record, the raw block and the pruning of the pool; the two closures of RawBlock::new (lifted, unit rawblock): a raw receipt carries the stored receipt's cumulative gas, status, logs and bloom, a raw transaction the stored nonce, target, value, input, chain id, gas limit and signature; eth_getLogs order (C18).",
     "level_note": COMMON_TRUST + "Narrow. Rule N29 keeps only the index arguments of TxReceiptED::new / TxED::new (the other arguments are revm/alloy values). NOT covered: bloom and merkle root (dropped from generate_block by N13: uninterpreted libraries), the header literal of RawBlock::new and the RLP encoding itself (alloy), the generate_raw_block body.",
     "assumptions": ["N29: constructors reduced to their index arguments; BlockResponseED::new assumed to store hash / count / number / transactions / parent hash in the fields of that name", "generate_raw_block not under contract", "U128ED compares as its encoding does (Kani u128ed_order)"],
 }
 PROPS["C08"] = {
-    "units": ["engine", "dbfacade", "rawtx", "txstore"],
+    "units": ["engine", "dbfacade", "rawtx", "txstore", "table"],
     "kani": [],
     "level_text": "Proof on the real get_info_from_raw_tx (an undecodable transaction is rejected, one whose chain id is absent or not the configured one is ignored, otherwise the result is exactly the decoded transaction: signer = address recovered from the signing hash, nonce = signed nonce, hash = keccak of the raw bytes or the signing hash as the fork schedule selects) and the three TxInfo constructors; on the real add_raw_tx_to_block control skeleton: a transaction is parked only with account_nonce < nonce < account_nonce + 10, executed first only with nonce == account nonce (or none), every drained transaction is younger than 10 blocks and receives transaction index = index of the call + receipts produced so far (loop invariant), nonces advance by one per receipt and every drained transaction carries exactly the account's next nonce (site precondition over what the pool lookup returned); drain completeness over a ghost model of the pending pool (map (signer, nonce) -> parked transaction, answered by the lookup site, updated at the removal site): whenever the call returns receipts, nothing is left waiting at the signer's next nonce - the loop ran every consecutive successor or dropped an expired one - and the entry removed is the one that was looked up; every successful finalise prunes the pool for the finalised height before the block becomes visible (finalise_block's closure, lifted in unit txstore); clear_txpool drops a parked transaction iff it has no arrival block or arrived >= 10 blocks ago and leaves every other one untouched.",
     "level_note": COMMON_TRUST + "Closures are guarded sites (N10); revm's own nonce check, signature recovery, chain-id filter (alloy) and txpool_content are outside. Termination of the drain loop is not proved (it ends when the pool has no next nonce).",
@@ -153,7 +153,7 @@ PROPS["C09"] = {
 PROPS["C16"]["units"] = ["scalars", "engine", "handlers"]
 PROPS["C16"]["level_text"] = PROPS["C16"]["level_text"] + " In add_tx_to_block the value handed to the EVM site and to the receipt is get_gas_limit(inscription_byte_len) (site precondition); a parked transaction replayed by the drain of add_raw_tx_to_block is given an inscription length whose allowance is at most the allowance recorded when it was parked (site precondition gas_limit_spec(byte_len) <= stored gas)."
 PROPS["C19"] = {
-    "units": ["evmctx", "scalars", "dbfacade", "engine", "dbslot", "handlers"],
+    "units": ["evmctx", "scalars", "dbfacade", "engine", "dbslot", "handlers", "table"],
     "kani": [],
     "level_text": "Proof on the real get_evm body over shim structs carrying revm's public field names: block number, timestamp, prevrandao = supplied hash, basefee 0, difficulty 0, chain id (cfg and tx) = configured, gas price 0, value 0, spec = fork schedule of the height, Bitcoin txid handed to the precompile provider = the supplied one; fork schedule table proved in unit scalars; the execution site of add_tx_to_block's closure (lifted, unit dbslot): the EVM the transaction runs in was built by get_evm for exactly the block number, block hash, timestamp and Bitcoin txid supplied with THIS call, and the transaction environment carries the deriving sender as caller, the supplied target and data, and the nonce and gas limit computed for it; the indexer-facing handlers brc20_deposit / withdraw / deploy / call / transact / finalise_block on their real bodies (unit handlers; `async fn` -> `fn`, they contain no await): each hands the engine the NEXT block height and exactly the timestamp, index, block hash, inscription length and Bitcoin txid it was given; deposits and withdrawals run as the indexer address against the BRC20 controller with a zero txid (load_brc20_mint_tx / load_brc20_burn_tx on their real bodies), deploys and calls as the address derived from the supplied pkscript; BLOCKHASH: the revm Database::block_hash callback on its real body answers with the recorded hash of that block (committed or not), zero if there is none, and changes nothing; the Bitcoin txid of a PARKED transaction: set_pending_tx records the supplied txid under the transaction's hash, stamped like the pool entry itself (stamped(..) on both tables, whatever was recorded under that hash before), get_pending_tx_op_return_tx_id reads the current row of that table, and the drain of add_raw_tx_to_block hands what it read for the parked transaction's hash to the execution site.",
     "level_note": "Narrow. Rule N32 replaces the generic revm type expressions of the signature and of one `let` by the shim names; field assignments are verbatim. Assumed: Context::new defaults, Evm::new_with_inspector keeps ctx and precompiles, BRC20Precompiles::new stores the txid. NOT covered: that revm reports tx.caller as both CALLER and ORIGIN, the environment of read-only calls (read_contract*), the 256-block window of BLOCKHASH (enforced by revm), deposits/withdrawals running as the indexer address.",
